@@ -151,6 +151,13 @@ STATEMENTS = [
     ("refutable-pattern", "for 1u8 in w17arr { w17m = 0u8; }"),
     ("refutable-pattern", "for (0u8, y17) in [w17p] { w17m = 0u8; }"),
     ("refutable-pattern", "for E17::B(x17) in [w17e] { w17m = x17; }"),
+    # ... also in the pair pattern of a loop over join_iter, in either row and at any depth
+    ("refutable-pattern", "for ((0u8, y17), (_, z17)) in join_iter([(w17a, w17t)], [(w17a, w17b)]) { w17m = 0u8; }"),
+    ("refutable-pattern", "for ((_, true), (_, z17)) in join_iter([(w17a, w17t)], [(w17a, w17b)]) { w17m = 0u8; }"),
+    ("refutable-pattern", "for ((_, y17), (1u8..=9u8, z17)) in join_iter([(w17a, w17t)], [(w17a, w17b)]) { w17m = 0u8; }"),
+    ("refutable-pattern", "for ((_, E17::B(y17)), (_, z17)) in join_iter([(w17a, w17e)], [(w17a, w17b)]) { w17m = y17; }"),
+    ("refutable-pattern", "for (x17, (0u8, z17)) in join_iter([(w17a, w17t)], [(w17a, w17b)]) { w17m = 0u8; }"),
+    ("refutable-pattern", "for ((x17, y17), (_, z17, 7u16)) in join_iter([(w17a, w17t)], [(w17a, w17b, w17b)]) { w17m = x17; }"),
     ("pattern-types", "let bad = match w17a { true => 1u8, _ => 2u8 };"),
     ("pattern-types", "let bad = match w17t { 0u8 => 1u8, _ => 2u8 };"),
     ("pattern-types", "let bad = match w17a { (x17, y17) => 1u8 };"),
